@@ -4,8 +4,8 @@ C16 — Rectangle and circle queries return exactly the elements inside the shap
 Spec (`Spade.Extra`): `RectVerticesOK`, `RectEdgesOK`, `CircVerticesOK`, `CircEdgesOK` = the
 reported list is duplicate free and equals {v | v in the closed shape} resp. {e | e meets the closed
 shape}, with the exact predicates `InRect`, `SegMeetsRect` (separating axis test) and
-`SegMeetsDisk`.  Vertex sets are compared exactly; edge sets up to a slack (`…TolOK`) because the
-implementation's edge metric divides (rounding at exact tangency).
+`SegMeetsDisk`.  Vertex sets and rectangle edge sets are compared exactly; circle edge sets up to a
+slack (`…TolOK`: the circle metric divides, rounding at exact tangency).
 Proved (all points):
 * checker ⇔ spec; an inverted rectangle contains nothing and meets nothing;
 * soundness of `SegMeetsRect`: every point of the segment that lies in the rectangle is witnessed —
@@ -14,12 +14,21 @@ Proved (all points):
   with common denominator) lies in the rectangle;
 * `SegMeetsDisk`: an end point inside the disk suffices; the predicate is symmetric in the end
   points' roles only through the projection (stated), and monotone in the radius.
-`C16_partial`: exactly-once / completeness of the flood fill itself is decided per run.
+* on the code: `C16_rect_metric_is_spec` — the edge test of `RectangleMetric` (T0-generated from the
+  source on every run) *is* `SegMeetsRect`, for every rectangle (proper, segment, point, inverted)
+  and every non-degenerate edge; `C16_rect_metric_no_miss` — when it answers `false` no point of the
+  edge lies in the closed rectangle.
+`C16_partial`: exactly-once / completeness of the flood fill itself is decided per run; that
+`SegMeetsRect` implies a common point (no false positives) is not proved.
 -/
 import Spade.Extra
 import Spade.Proofs.GeomLemmas
+import Spade.Generated.Leaf
+import Spade.Properties.C06
+import Mathlib.Tactic.Linarith
+import Mathlib.Tactic.LinearCombination
 namespace Spade
-open St
+open St Generated
 
 theorem C16_rectv_check_iff (s : St) (lo hi : Pt) (g : List Nat) :
     decide (s.RectVerticesOK lo hi g) = true ↔ s.RectVerticesOK lo hi g := decide_eq_true_iff
@@ -127,6 +136,316 @@ theorem C16_disk_mono (c : Pt) (r r' : Int) (a b : Pt) (hr : r ≤ r') (h : SegM
     · rename_i h2; simp only [h1, h2, if_false]
       have := mul_le_mul_of_nonneg_right hr hl
       omega
+
+/-! ### the rectangle metric of the implementation (generated by T0 from `flood_fill_iterator.rs`) -/
+
+theorem orient_box_pos (a b lo hi p : Pt) (hx : lo.x ≤ p.x ∧ p.x ≤ hi.x) (hy : lo.y ≤ p.y ∧ p.y ≤ hi.y)
+    (h1 : 0 < orient a b lo) (h2 : 0 < orient a b ⟨lo.x, hi.y⟩) (h3 : 0 < orient a b hi)
+    (h4 : 0 < orient a b ⟨hi.x, lo.y⟩) : 0 < orient a b p := by
+  unfold orient at *
+  simp only at *
+  by_cases hα : 0 ≤ -(b.y - a.y)
+  · by_cases hβ : 0 ≤ b.x - a.x
+    · nlinarith [mul_nonneg hα (sub_nonneg.mpr hx.1), mul_nonneg hβ (sub_nonneg.mpr hy.1)]
+    · have hβ' : 0 ≤ -(b.x - a.x) := by omega
+      nlinarith [mul_nonneg hα (sub_nonneg.mpr hx.1), mul_nonneg hβ' (sub_nonneg.mpr hy.2)]
+  · have hα' : 0 ≤ (b.y - a.y) := by omega
+    by_cases hβ : 0 ≤ b.x - a.x
+    · nlinarith [mul_nonneg hα' (sub_nonneg.mpr hx.2), mul_nonneg hβ (sub_nonneg.mpr hy.1)]
+    · have hβ' : 0 ≤ -(b.x - a.x) := by omega
+      nlinarith [mul_nonneg hα' (sub_nonneg.mpr hx.2), mul_nonneg hβ' (sub_nonneg.mpr hy.2)]
+
+theorem orient_box_neg (a b lo hi p : Pt) (hx : lo.x ≤ p.x ∧ p.x ≤ hi.x) (hy : lo.y ≤ p.y ∧ p.y ≤ hi.y)
+    (h1 : orient a b lo < 0) (h2 : orient a b ⟨lo.x, hi.y⟩ < 0) (h3 : orient a b hi < 0)
+    (h4 : orient a b ⟨hi.x, lo.y⟩ < 0) : orient a b p < 0 := by
+  have := orient_box_pos b a lo hi p hx hy (by rw [orient_rev]; omega) (by rw [orient_rev]; omega)
+    (by rw [orient_rev]; omega) (by rw [orient_rev]; omega)
+  rw [orient_rev] at this; omega
+
+/-- a point of the closed rectangle is never separated from the segment's end points by the
+supporting line: `SegMeetsRect` holds as soon as an end point lies in the rectangle -/
+theorem segMeetsRect_of_endpoint (lo hi a b : Pt) (h : InRect lo hi a ∨ InRect lo hi b) :
+    SegMeetsRect lo hi a b := by
+  unfold SegMeetsRect
+  have oa : orient a b a = 0 := by unfold orient; ring
+  have ob : orient a b b = 0 := by unfold orient; ring
+  rcases h with h | h <;> unfold InRect at h <;> obtain ⟨h1, h2, h3, h4⟩ := h
+  · refine ⟨by omega, by omega, by omega, by omega, by omega, by omega, ?_, ?_⟩
+    · rintro ⟨c1, c2, c3, c4⟩
+      have := orient_box_pos a b lo hi a ⟨h1, h2⟩ ⟨h3, h4⟩ c1 c3 c2 c4; omega
+    · rintro ⟨c1, c2, c3, c4⟩
+      have := orient_box_neg a b lo hi a ⟨h1, h2⟩ ⟨h3, h4⟩ c1 c3 c2 c4; omega
+  · refine ⟨by omega, by omega, by omega, by omega, by omega, by omega, ?_, ?_⟩
+    · rintro ⟨c1, c2, c3, c4⟩
+      have := orient_box_pos a b lo hi b ⟨h1, h2⟩ ⟨h3, h4⟩ c1 c3 c2 c4; omega
+    · rintro ⟨c1, c2, c3, c4⟩
+      have := orient_box_neg a b lo hi b ⟨h1, h2⟩ ⟨h3, h4⟩ c1 c3 c2 c4; omega
+
+/-- for a point on the supporting line of a non-degenerate segment: inside the bounding box of the
+end points ⇔ the projection factor lies in `[0, |b-a|²]` (stated on the differences
+`d = b - a`, `w = p - a`) -/
+theorem collinear_box_dot (dx dy wx wy : Int) (hne : dx ≠ 0 ∨ dy ≠ 0) (hcol : dx * wy = dy * wx) :
+    (min 0 dx ≤ wx ∧ wx ≤ max 0 dx ∧ min 0 dy ≤ wy ∧ wy ≤ max 0 dy) ↔
+      (0 ≤ wx * dx + wy * dy ∧ wx * dx + wy * dy ≤ dx * dx + dy * dy) := by
+  have kx : dx * (wx * dx + wy * dy) = wx * (dx * dx + dy * dy) := by linear_combination dy * hcol
+  have ky : dy * (wx * dx + wy * dy) = wy * (dx * dx + dy * dy) := by linear_combination (-dx) * hcol
+  have hL : 0 < dx * dx + dy * dy := by
+    rcases hne with h | h
+    · have : 0 < dx * dx := mul_self_pos.mpr h
+      nlinarith [mul_self_nonneg dy]
+    · have : 0 < dy * dy := mul_self_pos.mpr h
+      nlinarith [mul_self_nonneg dx]
+  generalize wx * dx + wy * dy = D at *
+  generalize dx * dx + dy * dy = L at *
+  constructor
+  · rintro ⟨h1, h2, h3, h4⟩
+    -- pick a non-zero direction component
+    rcases hne with h | h
+    · rcases lt_or_gt_of_ne h with hd | hd
+      · -- dx < 0: dx ≤ wx ≤ 0
+        rw [min_eq_right hd.le] at h1; rw [max_eq_left hd.le] at h2
+        constructor
+        · by_contra hc; replace hc := Int.not_le.mp hc
+          have : 0 < dx * D := mul_pos_of_neg_of_neg hd hc
+          have : wx * L ≤ 0 := mul_nonpos_of_nonpos_of_nonneg h2 hL.le
+          omega
+        · by_contra hc; replace hc := Int.not_le.mp hc
+          have h5 : dx * D < dx * L := mul_lt_mul_of_neg_left hc hd
+          have h6 : dx * L ≤ wx * L := mul_le_mul_of_nonneg_right h1 hL.le
+          omega
+      · rw [min_eq_left hd.le] at h1; rw [max_eq_right hd.le] at h2
+        constructor
+        · by_contra hc; replace hc := Int.not_le.mp hc
+          have : dx * D < 0 := mul_neg_of_pos_of_neg hd hc
+          have : 0 ≤ wx * L := mul_nonneg h1 hL.le
+          omega
+        · by_contra hc; replace hc := Int.not_le.mp hc
+          have h5 : dx * L < dx * D := mul_lt_mul_of_pos_left hc hd
+          have h6 : wx * L ≤ dx * L := mul_le_mul_of_nonneg_right h2 hL.le
+          omega
+    · rcases lt_or_gt_of_ne h with hd | hd
+      · rw [min_eq_right hd.le] at h3; rw [max_eq_left hd.le] at h4
+        constructor
+        · by_contra hc; replace hc := Int.not_le.mp hc
+          have : 0 < dy * D := mul_pos_of_neg_of_neg hd hc
+          have : wy * L ≤ 0 := mul_nonpos_of_nonpos_of_nonneg h4 hL.le
+          omega
+        · by_contra hc; replace hc := Int.not_le.mp hc
+          have h5 : dy * D < dy * L := mul_lt_mul_of_neg_left hc hd
+          have h6 : dy * L ≤ wy * L := mul_le_mul_of_nonneg_right h3 hL.le
+          omega
+      · rw [min_eq_left hd.le] at h3; rw [max_eq_right hd.le] at h4
+        constructor
+        · by_contra hc; replace hc := Int.not_le.mp hc
+          have : dy * D < 0 := mul_neg_of_pos_of_neg hd hc
+          have : 0 ≤ wy * L := mul_nonneg h3 hL.le
+          omega
+        · by_contra hc; replace hc := Int.not_le.mp hc
+          have h5 : dy * L < dy * D := mul_lt_mul_of_pos_left hc hd
+          have h6 : wy * L ≤ dy * L := mul_le_mul_of_nonneg_right h4 hL.le
+          omega
+  · rintro ⟨h1, h2⟩
+    -- each coordinate separately: sign of d·D = sign of w·L
+    have coord : ∀ (d w : Int), d * D = w * L → (min 0 d ≤ w ∧ w ≤ max 0 d) := by
+      intro d w hk
+      rcases lt_trichotomy d 0 with hd | hd | hd
+      · rw [min_eq_right hd.le, max_eq_left hd.le]
+        constructor
+        · by_contra hc; replace hc := Int.not_le.mp hc
+          have h5 : w * L < d * L := mul_lt_mul_of_pos_right hc hL
+          have h6 : d * L ≤ d * D := mul_le_mul_of_nonpos_left h2 hd.le
+          omega
+        · by_contra hc; replace hc := Int.not_le.mp hc
+          have h5 : 0 < w * L := mul_pos hc hL
+          have h6 : d * D ≤ 0 := mul_nonpos_of_nonpos_of_nonneg hd.le h1
+          omega
+      · subst hd
+        simp only [Int.zero_mul] at hk
+        have : w = 0 := by
+          rcases Int.mul_eq_zero.mp hk.symm with h | h
+          · exact h
+          · omega
+        subst this; simp
+      · rw [min_eq_left hd.le, max_eq_right hd.le]
+        constructor
+        · by_contra hc; replace hc := Int.not_le.mp hc
+          have h5 : w * L < 0 := mul_neg_of_neg_of_pos hc hL
+          have h6 : 0 ≤ d * D := mul_nonneg hd.le h1
+          omega
+        · by_contra hc; replace hc := Int.not_le.mp hc
+          have h5 : d * L < w * L := mul_lt_mul_of_pos_right hc hL
+          have h6 : d * D ≤ d * L := mul_le_mul_of_nonneg_left h2 hd.le
+          omega
+    have cx := coord dx wx kx
+    have cy := coord dy wy ky
+    exact ⟨cx.1, cx.2, cy.1, cy.2⟩
+
+theorem is_on_edge_iff (a b p : Pt) :
+    is_on_edge (project_point a b p).1 (project_point a b p).2 = true ↔
+      (0 ≤ dotFrom a b p ∧ dotFrom a b p ≤ dotFrom a b b) := by
+  simp only [is_on_edge, is_before_edge, is_behind_edge, project_point, FL.lt, FL.gt, FL.zero,
+    Bool.and_eq_true, Bool.not_eq_true']
+  constructor
+  · rintro ⟨h1, h2⟩
+    exact ⟨Int.not_lt.mp (of_decide_eq_false h1), Int.not_lt.mp (of_decide_eq_false h2)⟩
+  · rintro ⟨h1, h2⟩
+    exact ⟨decide_eq_false (Int.not_lt.mpr h1), decide_eq_false (Int.not_lt.mpr h2)⟩
+
+/-- **the rectangle metric's edge test is the separating axis predicate** (code generated by T0 from
+`RectangleMetric::is_edge_inside` ⇔ spec `SegMeetsRect`), for every rectangle — proper, degenerate
+to a segment or a point, inverted — and every non-degenerate edge -/
+theorem C16_rect_metric_is_spec (lo hi a b : Pt) (hab : a ≠ b) :
+    rect_is_edge_inside lo hi a b = true ↔ SegMeetsRect lo hi a b := by
+  unfold rect_is_edge_inside
+  by_cases hE : rect_is_empty lo hi = true
+  · -- inverted rectangle
+    rw [if_pos hE]
+    have : hi.x < lo.x ∨ hi.y < lo.y := by
+      simpa [rect_is_empty, FL.gt, FL.lt] using hE
+    constructor
+    · intro h; cases h
+    · intro h; exact absurd h ((C16_inverted_empty lo hi this).2 a b)
+  · rw [if_neg hE]
+    have hne : lo.x ≤ hi.x ∧ lo.y ≤ hi.y := by
+      have : ¬ (hi.x < lo.x ∨ hi.y < lo.y) := by
+        simpa [rect_is_empty, FL.gt, FL.lt] using hE
+      omega
+    by_cases hP : (rect_is_point_inside lo hi a || rect_is_point_inside lo hi b) = true
+    · rw [if_pos hP]
+      have : InRect lo hi a ∨ InRect lo hi b := by
+        simp only [rect_is_point_inside, FL.ge, FL.le, Bool.or_eq_true, Bool.and_eq_true, decide_eq_true_eq] at hP
+        unfold InRect
+        rcases hP with h | h
+        · left; omega
+        · right; omega
+      exact ⟨fun _ => segMeetsRect_of_endpoint lo hi a b this, fun _ => rfl⟩
+    · rw [if_neg hP]
+      by_cases hpt : (lo == hi) = true
+      · -- the rectangle is a single point
+        rw [if_pos hpt]
+        have hlh : lo = hi := by simpa using hpt
+        subst hlh
+        rw [C06_on_line_iff, Bool.and_eq_true, decide_eq_true_eq, is_on_edge_iff]
+        unfold SegMeetsRect
+        constructor
+        · rintro ⟨hc, h0, h1⟩
+          have hb := (collinear_box_dot (b.x - a.x) (b.y - a.y) (lo.x - a.x) (lo.y - a.y)
+            (by by_contra h; apply hab; cases a; cases b; simp_all; omega)
+            (by unfold orient at hc; linarith)).mpr ⟨by unfold dotFrom at h0; linarith, by unfold dotFrom at h1; linarith⟩
+          obtain ⟨b1, b2, b3, b4⟩ := hb
+          refine ⟨le_refl _, le_refl _, ?_, ?_, ?_, ?_, ?_, ?_⟩
+          · rcases le_total a.x b.x with h | h
+            · rw [min_eq_left h]; rw [min_eq_left (by omega : (0:Int) ≤ b.x - a.x)] at b1; omega
+            · rw [min_eq_right h]; rw [min_eq_right (by omega : b.x - a.x ≤ (0:Int))] at b1; omega
+          · rcases le_total a.x b.x with h | h
+            · rw [max_eq_right h]; rw [max_eq_right (by omega : (0:Int) ≤ b.x - a.x)] at b2; omega
+            · rw [max_eq_left h]; rw [max_eq_left (by omega : b.x - a.x ≤ (0:Int))] at b2; omega
+          · rcases le_total a.y b.y with h | h
+            · rw [min_eq_left h]; rw [min_eq_left (by omega : (0:Int) ≤ b.y - a.y)] at b3; omega
+            · rw [min_eq_right h]; rw [min_eq_right (by omega : b.y - a.y ≤ (0:Int))] at b3; omega
+          · rcases le_total a.y b.y with h | h
+            · rw [max_eq_right h]; rw [max_eq_right (by omega : (0:Int) ≤ b.y - a.y)] at b4; omega
+            · rw [max_eq_left h]; rw [max_eq_left (by omega : b.y - a.y ≤ (0:Int))] at b4; omega
+          · rintro ⟨c1, _⟩; omega
+          · rintro ⟨c1, _⟩; omega
+        · rintro ⟨_, _, m1, m2, m3, m4, n1, n2⟩
+          have hc : orient a b lo = 0 := by
+            by_contra h
+            rcases lt_or_gt_of_ne h with h | h
+            · exact n2 ⟨h, h, h, h⟩
+            · exact n1 ⟨h, h, h, h⟩
+          have hb := (collinear_box_dot (b.x - a.x) (b.y - a.y) (lo.x - a.x) (lo.y - a.y)
+            (by by_contra h; apply hab; cases a; cases b; simp_all; omega)
+            (by unfold orient at hc; linarith)).mp (by
+              refine ⟨?_, ?_, ?_, ?_⟩
+              · rcases le_total a.x b.x with h | h
+                · rw [min_eq_left (by omega : (0:Int) ≤ b.x - a.x)]; rw [min_eq_left h] at m1; omega
+                · rw [min_eq_right (by omega : b.x - a.x ≤ (0:Int))]; rw [min_eq_right h] at m1; omega
+              · rcases le_total a.x b.x with h | h
+                · rw [max_eq_right (by omega : (0:Int) ≤ b.x - a.x)]; rw [max_eq_right h] at m2; omega
+                · rw [max_eq_left (by omega : b.x - a.x ≤ (0:Int))]; rw [max_eq_left h] at m2; omega
+              · rcases le_total a.y b.y with h | h
+                · rw [min_eq_left (by omega : (0:Int) ≤ b.y - a.y)]; rw [min_eq_left h] at m3; omega
+                · rw [min_eq_right (by omega : b.y - a.y ≤ (0:Int))]; rw [min_eq_right h] at m3; omega
+              · rcases le_total a.y b.y with h | h
+                · rw [max_eq_right (by omega : (0:Int) ≤ b.y - a.y)]; rw [max_eq_right h] at m4; omega
+                · rw [max_eq_left (by omega : b.y - a.y ≤ (0:Int))]; rw [max_eq_left h] at m4; omega)
+          refine ⟨hc, ?_, ?_⟩
+          · unfold dotFrom; linarith [hb.1]
+          · unfold dotFrom; linarith [hb.2]
+      · rw [if_neg hpt]
+        -- proper rectangle (or a segment), no end point inside: bounding boxes, then the corners
+        simp only [FL.lt, FL.gt, Bool.or_eq_true, decide_eq_true_eq, List.all_cons, List.all_nil,
+          Bool.and_true, C06_left_iff, C06_right_iff]
+        unfold SegMeetsRect
+        by_cases hbb : ((max a.x b.x < lo.x ∨ hi.x < min a.x b.x) ∨ max a.y b.y < lo.y) ∨ hi.y < min a.y b.y
+        · rw [if_pos hbb]
+          constructor
+          · intro h; cases h
+          · rintro ⟨_, _, m1, m2, m3, m4, _, _⟩; omega
+        · rw [if_neg hbb]
+          simp only [Bool.not_eq_true', Bool.or_eq_false_iff, Bool.and_eq_false_imp, decide_eq_true_eq,
+            decide_eq_false_iff_not]
+          constructor
+          · rintro ⟨n1, n2⟩
+            refine ⟨hne.1, hne.2, by omega, by omega, by omega, by omega, ?_, ?_⟩
+            · rintro ⟨c1, c2, c3, c4⟩; exact n1 c1 c3 c2 c4
+            · rintro ⟨c1, c2, c3, c4⟩; exact n2 c1 c3 c2 c4
+          · rintro ⟨_, _, _, _, _, _, n1, n2⟩
+            exact ⟨fun c1 c3 c2 c4 => n1 ⟨c1, c2, c3, c4⟩, fun c1 c3 c2 c4 => n2 ⟨c1, c2, c3, c4⟩⟩
+
+/-- **no misses**: when the generated edge test answers `false`, no point `a + (n/d)(b-a)`
+(`0 ≤ n ≤ d`, written with the common denominator `d`) of the edge lies in the closed rectangle -/
+theorem C16_rect_metric_no_miss (lo hi a b : Pt) (hab : a ≠ b) (n d : Int) (hd : 0 < d) (hn0 : 0 ≤ n)
+    (hn1 : n ≤ d) (h : rect_is_edge_inside lo hi a b = false) :
+    ¬ (d * lo.x ≤ (segPointScaled a b n d).x ∧ (segPointScaled a b n d).x ≤ d * hi.x ∧
+       d * lo.y ≤ (segPointScaled a b n d).y ∧ (segPointScaled a b n d).y ≤ d * hi.y) := by
+  have hs : ¬ SegMeetsRect lo hi a b := by
+    intro hm; rw [(C16_rect_metric_is_spec lo hi a b hab).mpr hm] at h; cases h
+  intro hin
+  apply hs
+  unfold SegMeetsRect
+  obtain ⟨i1, i2, i3, i4⟩ := hin
+  unfold segPointScaled at i1 i2 i3 i4
+  simp only at i1 i2 i3 i4
+  have hlx : lo.x ≤ hi.x := by
+    have : d * lo.x ≤ d * hi.x := le_trans i1 i2
+    exact le_of_mul_le_mul_left this hd
+  have hly : lo.y ≤ hi.y := by
+    have : d * lo.y ≤ d * hi.y := le_trans i3 i4
+    exact le_of_mul_le_mul_left this hd
+  have hbox : ¬ (hi.x < min a.x b.x ∨ max a.x b.x < lo.x ∨ hi.y < min a.y b.y ∨ max a.y b.y < lo.y) := by
+    intro hout
+    exact C16_bbox_sound lo hi a b n d hd hn0 hn1 hout ⟨i1, i2, i3, i4⟩
+  -- the scaled point q = d·a + n·(b-a) lies on the line through d·a, d·b, inside the scaled box
+  have hq : orient (a.smul d) (b.smul d) ⟨d * a.x + n * (b.x - a.x), d * a.y + n * (b.y - a.y)⟩ = 0 := by
+    unfold orient Pt.smul; ring
+  refine ⟨hlx, hly, by omega, by omega, by omega, by omega, ?_, ?_⟩
+  · rintro ⟨c1, c2, c3, c4⟩
+    have := orient_box_pos (a.smul d) (b.smul d) (lo.smul d) (hi.smul d)
+      ⟨d * a.x + n * (b.x - a.x), d * a.y + n * (b.y - a.y)⟩
+      (by simp only [Pt.smul]; constructor <;> linarith) (by simp only [Pt.smul]; constructor <;> linarith)
+      ((orient_scale_pos d hd a b lo).mpr c1)
+      (by have := (orient_scale_pos d hd a b ⟨lo.x, hi.y⟩).mpr c3; simpa [Pt.smul] using this)
+      ((orient_scale_pos d hd a b hi).mpr c2)
+      (by have := (orient_scale_pos d hd a b ⟨hi.x, lo.y⟩).mpr c4; simpa [Pt.smul] using this)
+    omega
+  · rintro ⟨c1, c2, c3, c4⟩
+    have neg : ∀ c : Pt, orient a b c < 0 → orient (a.smul d) (b.smul d) (c.smul d) < 0 := by
+      intro c hc; rw [orient_scale]; exact mul_neg_of_pos_of_neg (mul_pos hd hd) hc
+    have := orient_box_neg (a.smul d) (b.smul d) (lo.smul d) (hi.smul d)
+      ⟨d * a.x + n * (b.x - a.x), d * a.y + n * (b.y - a.y)⟩
+      (by simp only [Pt.smul]; constructor <;> linarith) (by simp only [Pt.smul]; constructor <;> linarith)
+      (neg lo c1)
+      (by have := neg ⟨lo.x, hi.y⟩ c3; simpa [Pt.smul] using this)
+      (neg hi c2)
+      (by have := neg ⟨hi.x, lo.y⟩ c4; simpa [Pt.smul] using this)
+    omega
+
+/-- non-vacuity / regression: the edge of fix F29 (through two corners of the rectangle, scaled to
+integers) is inside; an edge passing the rectangle outside of a corner is not -/
+example : rect_is_edge_inside ⟨1, 1⟩ ⟨3, 3⟩ ⟨0, 4⟩ ⟨4, 0⟩ = true ∧ rect_is_edge_inside ⟨1, 1⟩ ⟨3, 3⟩ ⟨0, 5⟩ ⟨5, 2⟩ = false ∧
+    rect_is_edge_inside ⟨2, 2⟩ ⟨2, 2⟩ ⟨0, 0⟩ ⟨4, 4⟩ = true ∧ rect_is_edge_inside ⟨3, 1⟩ ⟨1, 3⟩ ⟨0, 0⟩ ⟨4, 4⟩ = false := by decide
 
 example : SegMeetsRect ⟨0, 0⟩ ⟨2, 2⟩ ⟨-1, 1⟩ ⟨3, 1⟩ ∧ ¬ SegMeetsRect ⟨0, 0⟩ ⟨2, 2⟩ ⟨3, 0⟩ ⟨5, 5⟩ ∧
     SegMeetsDisk ⟨0, 0⟩ 2 ⟨-2, 1⟩ ⟨2, 1⟩ ∧ ¬ SegMeetsDisk ⟨0, 0⟩ 2 ⟨-2, 2⟩ ⟨2, 2⟩ := by decide
